@@ -87,6 +87,7 @@ type MCall struct {
 	N      int64
 	At     time.Duration
 	Seq    int
+	At2    time.Duration // after the wrapped collector returned
 }
 
 type TCPRec struct {
@@ -121,12 +122,14 @@ func (r *TCPRec) AddAuthenticated(accessKey string) {
 	if r.inner != nil {
 		r.inner.AddAuthenticated(accessKey)
 	}
+	r.Calls[len(r.Calls)-1].At2 = simrt.Elapsed()
 }
 func (r *TCPRec) AddClosed(status string, data metrics.ProxyMetrics, d time.Duration) {
 	r.Calls = append(r.Calls, MCall{Kind: "closed", Status: status, Data: data, At: simrt.Elapsed(), Seq: simrt.Steps()})
 	if r.inner != nil {
 		r.inner.AddClosed(status, data, d)
 	}
+	r.Calls[len(r.Calls)-1].At2 = simrt.Elapsed()
 }
 func (r *TCPRec) AddProbe(status, drain string, n int64) {
 	r.Calls = append(r.Calls, MCall{Kind: "probe", Status: status, Drain: drain, N: n, At: simrt.Elapsed(), Seq: simrt.Steps()})
@@ -147,6 +150,8 @@ type UDPRec struct {
 	Client string
 	Key    string
 	At     time.Duration
+	At2    time.Duration // after the wrapped AddUDPNatEntry returned
+	RemAt, RemAt2 time.Duration
 	Calls  []UCall
 	inner  service.UDPConnMetrics
 }
@@ -175,9 +180,11 @@ func (r *UDPRec) AddPacketFromTarget(status string, a, b int64) {
 }
 func (r *UDPRec) RemoveNatEntry() {
 	r.Calls = append(r.Calls, UCall{"remove", "", 0, 0, simrt.Elapsed(), simrt.Steps()})
+	r.RemAt = simrt.Elapsed()
 	if r.inner != nil {
 		r.inner.RemoveNatEntry()
 	}
+	r.RemAt2 = simrt.Elapsed()
 }
 
 // RecMetrics wraps (optionally) the real Prometheus collectors and logs every call.
@@ -208,6 +215,8 @@ func (m *RecMetrics) AddUDPNatEntry(clientAddr net.Addr, accessKey string) servi
 	if m.Inner != nil {
 		r.inner = m.Inner.AddUDPNatEntry(clientAddr, accessKey)
 	}
+	r.At2 = simrt.Elapsed()
+	r.RemAt = -1
 	m.UDP = append(m.UDP, r)
 	return r
 }
